@@ -95,3 +95,43 @@ def changed_files(rep: dict | None) -> dict[str, list[str]]:
 def load_seeds() -> dict[str, list[str]]:
     p = common.VERIF / "harness" / "corpus" / "seeds.json"
     return json.loads(p.read_text()) if p.exists() else {}
+
+
+MANIFESTS = {
+    "requirements.txt": ["requests==2.31.0\nflask>=2\n", "# deps\nrequests\n", "requests", "", "   \n", "-r other.txt\nrequests\n"],
+    "pyproject.toml": [
+        '[project]\nname = "x"\nversion = "0.1"\ndependencies = [\n    "requests",\n]\n',
+        '[project]\nname = "x"\nversion = "0.1"\ndependencies = ["requests", "flask>=2"]\n',
+        '[tool.poetry]\nname = "x"\nversion = "0.1"\n\n[tool.poetry.dependencies]\npython = "^3.10"\nrequests = "^2.0"\n',
+        '[build-system]\nrequires = ["setuptools"]\n',
+    ],
+    "setup.py": [
+        'from setuptools import setup\n\nsetup(\n    name="x",\n    install_requires=[\n        "requests",\n        "flask>=2",\n    ],\n)\n',
+        'from setuptools import setup\nsetup(name="x", install_requires=["requests"])\n',
+    ],
+    "setup.cfg": [
+        "[metadata]\nname = x\n\n[options]\ninstall_requires =\n    requests\n    flask>=2\n",
+        "[metadata]\nname = x\n\n[options]\ninstall_requires = requests, flask\n",
+    ],
+}
+
+# find-and-fix codemods that add a dependency (all add `security` or `defusedxml` / `flask-wtf`)
+DEP_CODEMODS = ["pixee:python/use-defusedxml", "pixee:python/url-sandbox", "pixee:python/sandbox-process-creation",
+                "pixee:python/flask-enable-csrf-protection"]
+
+
+def seed_project(rng, seeds: dict, codemods: list[str], n_files: int, manifest: str | None = None):
+    """files {rel: text} built from seeds of the given codemods (+ optionally one manifest); returns (files, origin)"""
+    files, origin = {}, {}
+    dirs = ["", "pkg/", "pkg/sub/", "app/"]
+    for i in range(n_files):
+        cid = rng.choice(codemods)
+        pool = seeds.get(cid) or []
+        if not pool:
+            continue
+        rel = f"{rng.choice(dirs)}m{i}.py"
+        files[rel] = rng.choice(pool)
+        origin[rel] = cid
+    if manifest:
+        files[manifest] = rng.choice(MANIFESTS[manifest])
+    return files, origin
